@@ -12,8 +12,6 @@ package http3
 //@   modifies nothing
 //@ extern httpguts.ValidTrailerHeader
 //@   modifies nothing
-//@ extern slices.Contains
-//@   modifies nothing
 //@ extern strings.ToLower
 //@   modifies nothing
 //@ extern strconv.ParseUint
